@@ -97,7 +97,9 @@ func genKnobs(t *core.Tape, kind Kind) simhttp.Knobs {
 		k.PumpLag = lags[t.Choose(len(lags), "pumplag.us")] * time.Microsecond
 	}
 	// an HTTPClient middleware whose errors do not wrap their cause
-	k.OpaqueDoErr = t.Bool(1, 6, "opaque.do.err")
+	if t.Bool(1, 5, "opaque.do.err") {
+		k.OpaqueDoErr = 1 + t.Choose(3, "opaque.do.err.kind")
+	}
 	if t.Bool(1, 4, "arrivelag") {
 		// transit time: a deadline sent as a timeout ends later on the server
 		// than on the client
